@@ -546,9 +546,21 @@ static void GC_New(var self, var args) {
   set(current(Thread), $S(GC_TLS_KEY), gc);
 }
 
+static bool GC_Has_Unrooted(struct GC* gc) {
+  for (size_t i = 0; i < gc->nslots; i++) {
+    if (gc->entries[i].hash isnt 0 and not gc->entries[i].root) { return true; }
+  }
+  return false;
+}
+
 static void GC_Del(var self) {
   struct GC* gc = self;
   GC_Sweep(gc);
+  /* What the destructors of one sweep allocate is finalised by the next.
+  ** A few rounds only: a destructor chain that never ends is cut off */
+  for (int round = 0; round < 16 and GC_Has_Unrooted(gc); round++) {
+    GC_Sweep(gc);
+  }
   free(gc->entries);
   free(gc->freelist);
   rem(current(Thread), $S(GC_TLS_KEY));
